@@ -250,6 +250,83 @@ def closure_contracts(body, specs, where, prov):
     return body
 
 
+def fn_locals(sig, body_before):
+    """Names bound by the enclosing function before the call: parameters and `let [mut] x` bindings."""
+    names = set()
+    toks = code_tokens(sig)
+    for i, t in enumerate(toks):
+        if t[0] == "id" and i + 1 < len(toks) and toks[i + 1][1] == ":" and toks[i - 1][1] in ("(", ",", "mut"):
+            names.add(t[1])
+    toks = code_tokens(body_before)
+    for i, t in enumerate(toks):
+        if t[0] == "id" and t[1] == "let":
+            j = i + 1
+            if toks[j][1] == "mut":
+                j += 1
+            if toks[j][0] == "id":
+                names.add(toks[j][1])
+    return names
+
+
+def lift_closure(sig, body, lift, where, prov):
+    """class L: lambda-lift the closure handed to a walker; the call is replaced by a loop over the walker's
+    contract sequence. Returns (new_body_of_enclosing_fn, lifted_fn_sig, lifted_fn_body)."""
+    hits = find_token_seq(body, lift["call"])
+    if len(hits) != 1:
+        raise LostAnchor("%s: walker call `%s` found %d times" % (where, lift["call"], len(hits)))
+    a, b = hits[0]
+    toks = code_tokens(body)
+    k = next(i for i, t in enumerate(toks) if t[2] >= b)
+    # closure literal: |params| { body }
+    if toks[k][1] != "|":
+        raise LostAnchor("%s: no closure literal after `%s`" % (where, lift["call"]))
+    j = k + 1
+    while toks[j][1] != "|":
+        j += 1
+    params = body[toks[k][2]:toks[j][3]]
+    if re.sub(r"\s+", "", params) != re.sub(r"\s+", "", lift["closure_params"]):
+        raise LostAnchor("%s: closure parameters are `%s`, declared `%s`" % (where, params, lift["closure_params"]))
+    if toks[j + 1][1] != "{":
+        if not lift.get("expr_body"):
+            raise LostAnchor("%s: closure body is not a block" % where)
+        # expression body up to the closing paren of the call
+        e = j + 1
+        while not (toks[e][0] == "punct" and toks[e][1] == ")"):
+            if toks[e][0] == "punct" and toks[e][1] in "([{":
+                e = match_close(toks, e)
+            e += 1
+        cbody = "{ " + body[toks[j + 1][2]:toks[e - 1][3]] + "; }"
+        close_tok = e
+    else:
+        e = match_close(toks, j + 1)
+        cbody = body[toks[j + 1][2]:toks[e][3]]
+        close_tok = e + 1
+    if toks[close_tok][1] != ")":
+        raise LostAnchor("%s: walker call does not end after the closure" % where)
+    end = toks[close_tok][3]
+    if body[end:end + 1] == ";":
+        end += 1
+    # capture check: free identifiers of the closure that are locals/params of the enclosing fn
+    locs = fn_locals(sig, body[:a])
+    pnames = set(t[1] for t in code_tokens(params) if t[0] == "id")
+    used = set(t[1] for t in code_tokens(cbody) if t[0] == "id")
+    caps = sorted((used & locs) - pnames)
+    if caps != sorted(lift["captures"]):
+        raise LostAnchor("%s: closure captures %s, unit declares %s" % (where, caps, sorted(lift["captures"])))
+    # declared deref sites inside the lifted body (assignments to captured variables)
+    for d in lift.get("deref_sites", []):
+        n = cbody.count(d["find"])
+        if n != d.get("count", 1):
+            raise LostAnchor("%s: deref site `%s` found %d times" % (where, d["find"], n))
+        cbody = cbody.replace(d["find"], d["replace"])
+    lifted_sig = "fn %s%s(%s, %s)" % (lift["name"], lift.get("generics", ""), lift["param"],
+                                      ", ".join("%s: %s" % (c, lift["capture_types"][c]) for c in lift["captures"]))
+    new_body = body[:a] + lift["loop"].rstrip() + "\n" + body[end:]
+    prov.append({"cls": "L", "what": "closure handed to `%s` lifted to fn %s; captures %s; call replaced by a loop over the walker contract"
+                 % (lift["call"].strip(), lift["name"], caps), "deref_sites": lift.get("deref_sites", [])})
+    return new_body, lifted_sig, cbody
+
+
 def spec_twin(item, name, sig_override, where, prov):
     """class A (ghost): a spec function whose body is the function's body text, verbatim (self -> x)."""
     body = strip_comments(item.body)
@@ -505,6 +582,10 @@ class Unit:
             body = strip_comments(it.body)
             sig = apply_edits(sig, [e for e in spec.get("edit", []) if e.get("in") == "sig"], where, prov)
             body = apply_edits(body, [e for e in spec.get("edit", []) if e.get("in", "body") == "body"], where, prov)
+            lifted = None
+            if spec.get("lift"):
+                body, lsig, lbody = lift_closure(sig, body, spec["lift"], where, prov)
+                lifted = (lsig, lbody)
             body = closure_contracts(body, spec.get("closure"), where, prov)
             if spec.get("autofmt"):
                 body = auto_format(body, where, prov, self.fmt_patterns)
@@ -539,6 +620,33 @@ class Unit:
                 else:
                     self._emit_partial(em, txt, lambda k, o=org: {"kind": o[0], "fn": label})
             self._flush(em)
+            if lifted:
+                lsig, lbody = lifted
+                lspec = dict(spec["lift"].get("contract", {}))
+                lspec.setdefault("props", spec.get("props", []))
+                llabel = "fn " + spec["lift"]["name"]
+                lbody = apply_edits(lbody, lspec.get("edit"), where + " (lifted)", prov)
+                if lspec.get("autofmt"):
+                    lbody = auto_format(lbody, where, prov, self.fmt_patterns)
+                self.fn_props[llabel] = lspec["props"]
+                rec2 = dict(rec, label=llabel, find=spec["find"] + " (closure lifted, class L)")
+                self.prov["items"].append(rec2)
+                gi = {}
+                chunks = splice_fn(lsig, lbody, lspec, where, prov, self.with_goals, gi)
+                l0 = body_line0
+                for txt, org in chunks:
+                    if org[0] == "clause":
+                        cid = org[2]
+                        if cid:
+                            self.clause_index[cid] = {"props": org[3] or lspec["props"], "text": txt.strip(), "kind": org[1], "fn": llabel}
+                        self._emit_partial(em, txt, lambda k, cid=cid, kind=org[1]: {"kind": "clause", "id": cid, "clause_kind": kind, "fn": llabel})
+                    elif org[0] == "canary":
+                        self._emit_partial(em, txt, lambda k, w=org[1]: {"kind": "canary", "fn": llabel, "where": w})
+                    elif org[0] == "body":
+                        self._emit_partial(em, txt, lambda k: {"kind": "repo", "file": spec["file"], "line": l0, "fn": llabel})
+                    else:
+                        self._emit_partial(em, txt, lambda k, o=org: {"kind": o[0], "fn": llabel})
+                self._flush(em)
             return
         if it.kind == "impl":
             raise LostAnchor("whole-impl extraction not supported; name the fn")
